@@ -152,15 +152,11 @@ func withMode(rt *rapid.T, c *EWCase, mode string, d DT) *EWCase {
 	return c
 }
 
-var c07DTsQuick = []DT{dtInt8, dtInt32, dtUint16, dtUint64, dtF32, dtF64, dtC128}
 var ewModes = []string{"safe", "unsafe", "reuse", "reuseA", "reuseB", "reuseAv", "reuseBv", "reuseAx", "incr"}
 
-func c07DTs() []DT {
-	if thorough() {
-		return numDTs
-	}
-	return c07DTsQuick
-}
+// (the quick tier used to draw from seven element types; a kernel of one of the other seven was then out of
+// its reach - every generated kernel exists once per type, so both tiers run all fourteen)
+func c07DTs() []DT { return numDTs }
 
 func TestC07(t *testing.T) {
 	for _, op := range arithOps {
@@ -326,7 +322,7 @@ func genCmpMode(rt *rapid.T, prop, op string, d DT, form, via, mode string) *EWC
 // inF26 is the region of known finding F26: scalar on the left, same-type
 // result and a non-contiguous tensor operand.
 func inF26(c *EWCase) bool {
-	return c.Fam == "cmp" && c.Form == "ST" && (c.SameType || c.Mode == "unsafe" || c.Mode == "reuseA") && !c.A.L.IsContig()
+	return c.Fam == "cmp" && c.Form == "ST" && (c.SameType || c.Mode == "unsafe" || c.Mode == "reuseA") && !c.A.L.IsContig() && !c.A.L.onlyTransposed()
 }
 
 func TestC11(t *testing.T) {
@@ -375,13 +371,10 @@ func TestC11(t *testing.T) {
 			c.BDT = od.Name
 			return c
 		})
-		cell(t, "C11", "EW", op+"/mismatch-shape", nCases(6, 60), func(rt *rapid.T) Case {
+		cell(t, "C11", "EW", op+"/mismatch-shape", nCases(20, 400), func(rt *rapid.T) Case {
 			d := rapid.SampledFrom(ordNumDTs).Draw(rt, "dt")
 			c := genCmpCase(rt, "C11", op, d, "TT", rapid.SampledFrom([]string{"pkg", "method"}).Draw(rt, "via"), "safe", false, c06LayoutKinds)
-			shape := ewShape(rt)
-			if prod(shape) == prod(c.A.Shape) {
-				shape = append([]int{2}, shape...)
-			}
+			shape := mismatchedShape(rt, c.A.Shape)
 			b := genOpnd(rt, shape, "contig", -2, 3, 0, "b2")
 			c.B = &b
 			return c
